@@ -106,7 +106,8 @@ ColOf(S, c) == S.cols[c]
 TabOf(S, t) == S.tables[CHOOSE i \in 1..Len(S.tables) : S.tables[i].id = t]
 IsFormula(col) == col.body[1] # "none"
 \* the name map the document is built with
-Names0(S) == [e \in Entities(S) |-> IF IsTable(S, e) THEN TabOf(S, e).name ELSE S.cols[e].name]
+Names0(S) == LET tids == TableIds(S) IN     \* (TLC does not hoist: bind what a quantifier body reuses)
+             [e \in tids \cup ColIds(S) |-> IF e \in tids THEN TabOf(S, e).name ELSE S.cols[e].name]
 
 ----------------------------------------------------------------------------
 \* Text of a tree under a name map: tokens <<text, entity mentioned or "">>
@@ -286,14 +287,15 @@ KindOf(in) == IF IsTable(in.sch, in.target) THEN "table" ELSE "col"
 \* the other names in the namespace of the target, under N (hidden columns such as manualSort
 \* are part of N as well: identity "<table>.<name>")
 Siblings(in, N) ==
-  IF IsTable(in.sch, in.target)
-  THEN {N[e] : e \in {x \in DOMAIN N : IsTable(in.sch, x)} \ {in.target}}
-  ELSE LET tab == ColOf(in.sch, in.target).tab
-           inTab(x) == IF x \in ColIds(in.sch) THEN ColOf(in.sch, x).tab = tab
-                       ELSE ~IsTable(in.sch, x) /\ Len(x) > Len(tab) /\ SubSeq(x, 1, Len(tab) + 1) = tab \o "."
+  LET tids == TableIds(in.sch)  cids == ColIds(in.sch) IN
+  IF in.target \in tids
+  THEN {N[e] : e \in {x \in DOMAIN N : x \in tids} \ {in.target}}
+  ELSE LET tab == in.sch.cols[in.target].tab
+           inTab(x) == IF x \in cids THEN in.sch.cols[x].tab = tab
+                       ELSE x \notin tids /\ Len(x) > Len(tab) /\ SubSeq(x, 1, Len(tab) + 1) = tab \o "."
        IN {N[e] : e \in {x \in DOMAIN N : inTab(x)} \ {in.target}}
 
-Changed(N0, N1) == {e \in DOMAIN N0 : e \notin DOMAIN N1 \/ N1[e] # N0[e]}
+Changed(N0, N1) == LET d1 == DOMAIN N1 IN {e \in DOMAIN N0 : e \notin d1 \/ N1[e] # N0[e]}
 
 AppliedOk(in, o) ==
   LET N0 == o.names0  N1 == o.names1 IN
@@ -304,11 +306,13 @@ AppliedOk(in, o) ==
      \/ NameOk(KindOf(in), in.req, N1[in.target], Siblings(in, N1),
                IF KindOf(in) = "col" THEN {"id"} ELSE {})
 
-BadVals(va, vb) == {e \in DOMAIN va : e \notin DOMAIN vb \/ vb[e] # va[e]} \cup (DOMAIN vb \ DOMAIN va)
+BadVals(va, vb) ==
+  LET da == DOMAIN va  db == DOMAIN vb IN {e \in da : e \notin db \/ vb[e] # va[e]} \cup (db \ da)
 BadTexts(in, texts, N, texts0) ==
-  (IF ~(Entities(in.sch) \subseteq DOMAIN N) THEN {c \in ColIds(in.sch) : IsFormula(in.sch.cols[c])}
-   ELSE {c \in ColIds(in.sch) : c \notin DOMAIN texts \/ texts[c] # FormulaText(N, in.sch.cols[c])})
-  \cup {e \in DOMAIN texts0 \ ColIds(in.sch) : e \notin DOMAIN texts \/ texts[e] # texts0[e]}
+  LET cids == ColIds(in.sch)  dt == DOMAIN texts IN
+  (IF ~(Entities(in.sch) \subseteq DOMAIN N) THEN {c \in cids : IsFormula(in.sch.cols[c])}
+   ELSE {c \in cids : c \notin dt \/ texts[c] # FormulaText(N, in.sch.cols[c])})
+  \cup {e \in DOMAIN texts0 \ cids : e \notin dt \/ texts[e] # texts0[e]}
 
 Unchanged1(o) ==
   o.names1 = o.names0 /\ o.texts1 = o.texts0 /\ o.vals1 = o.vals0 /\ o.dig1 = o.dig0
